@@ -101,6 +101,37 @@ func (t *vtimer) fire() bool {
 
 // ---------------------------------------------------------------- nodes and network
 
+// recQueue is the BlockQueuer handed to the consensus service: it records what the validator assembled
+// (block + witness) and checks, on a peer's ledger, that the witness satisfies the consensus address the
+// previous header designates - i.e. that the committed block is acceptable elsewhere - then forwards to the
+// node's real block queue.
+type recQueue struct {
+	c   *Cluster
+	idx int
+	in  *bqueue.Queue[*block.Block]
+}
+
+func (r recQueue) Put(b *block.Block) error {
+	ok, checked := true, 0
+	errs := ""
+	for j, o := range r.c.Nodes {
+		if j == r.idx || o == nil {
+			continue
+		}
+		prev, err := o.BC.GetHeader(b.PrevHash)
+		if err != nil {
+			continue
+		}
+		checked++
+		if _, err := o.BC.VerifyWitness(prev.NextConsensus, b, &b.Script, o.BC.GetMaxVerificationGAS()); err != nil {
+			ok = false
+			errs = err.Error()
+		}
+	}
+	r.c.Log(map[string]any{"event": "queued", "node": r.idx, "h": b.Index, "hash": b.Hash().StringLE(), "peers_checked": checked, "witness_ok": ok, "err": errs})
+	return r.in.Put(b)
+}
+
 type queuer struct{ bc *core.Blockchain }
 
 func (q queuer) AddItem(b *block.Block) error     { return q.bc.AddBlock(b) }
@@ -197,7 +228,7 @@ func NewCluster(n int, dir string, logf func(map[string]any)) (*Cluster, error) 
 			Logger:                zap.NewNop(),
 			Broadcast:             func(p *npayload.Extensible) { c.onBroadcast(idx, p) },
 			Chain:                 bc,
-			BlockQueue:            nd.Q,
+			BlockQueue:            recQueue{c: c, idx: idx, in: nd.Q},
 			ProtocolConfiguration: bc.GetConfig().ProtocolConfiguration,
 			RequestTx:             func(h ...util.Uint256) { c.onRequestTx(idx, h) },
 			StopTxFlow:            func() {},
@@ -439,6 +470,20 @@ func (c *Cluster) ServeTxRequests() int {
 		}
 	}
 	return served
+}
+
+// NodeOfValidator maps a dBFT validator index (position in the sorted validator key list) to the node holding that key.
+func (c *Cluster) NodeOfValidator(vi int) int {
+	vals, err := c.Nodes[0].BC.GetNextBlockValidators()
+	if err != nil || vi >= len(vals) {
+		return vi
+	}
+	for i := range c.Nodes {
+		if chainkit.Key(fmt.Sprintf("committee-%d", i)).PublicKey().Equal(vals[vi]) {
+			return i
+		}
+	}
+	return vi
 }
 
 func (c *Cluster) Heights() []uint32 {
